@@ -713,6 +713,10 @@ def r15_5(ctx):
         return
     SW = "std::str::<impl str>::starts_with"
     ws_true = bool_call_edges(al, lib, SW, True, arg_pred=lambda t: has_field(C.trace(al, t["args"][1], through_fields=True), "whitespaces"))
+    # `line.strip_prefix(whitespaces)` == Some(rest) is the same test
+    ws_true |= enum_edges(al, lib, "std::option::Option", lambda vs: vs == {"Some"}, src_pred=lambda c: any(
+        l.kind == "call" and C.callee_name(l.data) == "std::str::<impl str>::strip_prefix" and
+        has_field(C.trace(al, l.data["args"][1], through_fields=True), "whitespaces") for l in c.src))
     pushes = calls_to(al, "std::vec::Vec::<T, A>::push")
     if not ws_true:
         ctx.violation(["whitespace-match"], "add_line no longer requires the continuation line to start with the directive's leading whitespace", site=ctx.site(al, 0))
@@ -788,3 +792,9 @@ def r11_6(ctx):
             ctx.ok("remove_txtpp returns Ok only for a path that is_txtpp_file()", site=ctx.site(rt, oks[0]))
         else:
             ctx.violation(["remove_txtpp-guard"], "remove_txtpp can return an output name for a path that is not a .txtpp source", site=ctx.site(rt, 0))
+
+
+@rule("C01", "R01.5", floor=1)
+def r01_5(ctx):
+    import rules_text
+    rules_text.r16_4(ctx)
